@@ -266,3 +266,45 @@ def check(ctx, run):  # noqa: F811
     from ..ctors import ctor_rule
     from ..primaries import primary_classes
     ctor_rule(ctx, run, "C01.R7", primary_classes(ctx.prog), {"cost"}, "the cost rate the hedger charges (h.cost) is not the one the instrument was created with")
+
+
+def listing_rule(ctx, run):
+    """R8 (listed derivatives used as hedges): list(pricer, cost) stores exactly that pricer and that cost rate, spot is pricer(self) evaluated
+    on the current state, delist() removes both - so the price series and cost rate the hedger reads off a listed hedge are the listed ones."""
+    prog, interp = ctx.prog, ctx.interp
+    D = "pfhedge.instruments.derivative.base.BaseDerivative"
+    run.require("C01.R8", 3)
+    lst, dl, sp_ = prog.lookup_method(D, "list"), prog.lookup_method(D, "delist"), prog.lookup_method(D, "spot")
+    if lst is None or dl is None or sp_ is None:
+        raise AnalysisError("anchor vanished: BaseDerivative.list / delist / spot")
+    pr, c = Sym("pricer_arg", ("callable",)), W.fl("cost_arg")
+    d = W.option("listed")
+    res = [r for r in interp.explore(lst, [pr, c], {}, self_obj=d) if not r["raises"]]
+    sets = [{e["attr"]: e["value"] for e in r["events"] if e["kind"] == "obj_setattr" and e.get("obj") is d} for r in res]
+    ok = bool(sets) and all(s_.get("pricer") is pr and s_.get("cost") == c for s_ in sets)
+    run.oblige("C01.R8", "BaseDerivative.list stores the given pricer and cost rate", ok, str(sets)[:160])
+    if not ok:
+        run.fail(Finding("C01.R8", lst.qualname, str(sets)[:200], "a listed derivative does not carry the pricer / cost rate it was listed with", file=str(prog.modules[lst.module].path), line=lst.node.lineno))
+    d2 = W.option("listed")
+    d2.attrs["pricer"] = pr
+    vals = [r["value"] for r in interp.explore(sp_, [], {}, self_obj=d2) if not r["raises"]]
+    oks = bool(vals) and all(isinstance(v, Op) and v.op == "call" and v.args[0] == pr and len(v.args) == 2 and v.args[1] is d2 for v in vals)
+    run.oblige("C01.R8", "BaseDerivative.spot == pricer(self) for a listed derivative", oks, str(vals)[:160])
+    if not oks:
+        run.fail(Finding("C01.R8", sp_.qualname, str(vals)[:200], "the price series of a listed derivative is not its pricer evaluated on the derivative itself", file=str(prog.modules[sp_.module].path), line=sp_.node.lineno))
+    d3 = W.option("listed")
+    d3.attrs.update(pricer=pr, cost=c)
+    res = [r for r in interp.explore(dl, [], {}, self_obj=d3) if not r["raises"]]
+    sets = [{e["attr"]: e["value"] for e in r["events"] if e["kind"] == "obj_setattr" and e.get("obj") is d3} for r in res]
+    okd = bool(sets) and all(s_.get("pricer", 1) is None and s_.get("cost", 1) == 0.0 for s_ in sets)
+    run.oblige("C01.R8", "BaseDerivative.delist removes the pricer and resets the cost rate", okd, str(sets)[:160])
+    if not okd:
+        run.fail(Finding("C01.R8", dl.qualname, str(sets)[:200], "delist() leaves a pricer or a cost rate behind", file=str(prog.modules[dl.module].path), line=dl.node.lineno))
+
+
+_check_before_listing = check
+
+
+def check(ctx, run):  # noqa: F811
+    _check_before_listing(ctx, run)
+    listing_rule(ctx, run)
